@@ -34,3 +34,38 @@ Qed.
 Example C15_wset_sees_nested_writes :
   wset (Repeat (Seq (ForSlots (If Opaque (SetHyper "c1") Skip)) (SetHyper "w"))) = ["c1"%string; "w"%string].
 Proof. reflexivity. Qed.
+
+(* ------------------------------------------------------------------ histories of tasks on one optimizer/space
+   The frame theorem holds from every start state; over a finite history of tasks (Analysis/Tasks.v; each task with its own
+   program, objective, iteration count, draw stream and a hook that writes no hyperparameter) the log of hyperparameter
+   writes only grows by names of the write sets of the programs that ran -- a hyperparameter outside all of them has, after
+   the whole history, the value it had before it. *)
+From OV Require Import Analysis.Tasks.
+
+Theorem C15_task_histories :
+  forall lbs ubs okc ts x0 rs x', Forall (fun t => forall x, hyp (thk t x) = hyp x) ts ->
+    thist lbs ubs okc ts x0 rs x' ->
+    exists added, hyp x' = added ++ hyp x0 /\ forall h, In h added -> exists t, In t ts /\ In h (wset (tp t)).
+Proof.
+  intros lbs ubs okc ts x0 rs x' HQ Ht. induction Ht as [x|t ts x x1 evs1 o1 rest x2 Hrun Ht IH].
+  - exists []. split; [reflexivity|intros h []].
+  - destruct (IH (Forall_inv_tail HQ)) as (a2 & E2 & H2).
+    destruct (C15_only_adaptive_hyperparameters_are_written (tp t) lbs ubs (tf t) (thk t) (tn t) okc (Forall_inv HQ) (tor t) _ x1 evs1 o1 Hrun)
+      as (a1 & E1 & H1).
+    exists (a2 ++ a1). split.
+    + rewrite E2, E1. simpl. rewrite app_assoc. reflexivity.
+    + intros h Hin. apply in_app_or in Hin as [Hin|Hin].
+      * destruct (H2 h Hin) as (t' & A & B). exists t'. split; [right; exact A|exact B].
+      * exists t. split; [left; reflexivity|apply H1; exact Hin].
+Qed.
+
+Corollary C15_task_histories_untouched :
+  forall lbs ubs okc ts x0 rs x', Forall (fun t => (forall x, hyp (thk t x) = hyp x) /\ wset (tp t) = []) ts ->
+    thist lbs ubs okc ts x0 rs x' -> hyp x' = hyp x0.
+Proof.
+  intros lbs ubs okc ts x0 rs x' HQ Ht.
+  destruct (C15_task_histories lbs ubs okc ts x0 rs x') as (added & E & Hin); [|exact Ht|].
+  - eapply Forall_impl; [|exact HQ]. intros t [A _]. exact A.
+  - destruct added as [|h a]; [exact E|]. exfalso. destruct (Hin h (or_introl eq_refl)) as (t & A & B).
+    rewrite Forall_forall in HQ. destruct (HQ t A) as [_ W]. rewrite W in B. exact B.
+Qed.
